@@ -298,6 +298,9 @@ class AxisScope(object):
             rt = getattr(self, 'ret_tags', {}).get(norm(val.func).split('.')[-1])
             if rt and pos < len(rt):
                 return set(rt[pos])
+            if rt is None:
+                # result of a per-direction helper: carries the direction of its arguments
+                return self.tag(val, stmt, depth)
             return set()
         if isinstance(val, ast.Name) or isinstance(val, ast.Attribute) or isinstance(val, ast.Subscript):
             if self.is_dir_expr(val):
